@@ -3,7 +3,8 @@ import Casket.Spec.Accounting
 import Driver.Proto
 /-
 Streams of C14.
-  c14.sched  nHosts maxConns maxFails expiry unhealthyBits nThreads events
+  c14.sched  nHosts maxConns maxFails expiry unhealthyBits nThreads events retry
+     retry   1 = try_duration > 0: a failed request goes back to selecting
      expiry  0 failures not counted (fail_timeout 0) | 1 counted, never expiring within the run | 2 counted, expiring at once
              | 3 counted, the event `w` waits for the oldest outstanding failure to expire
      events  comma list of  t:x   (thread t runs to its next blocking point; x = preferred backend / outcome code)
@@ -33,11 +34,11 @@ structure Case where
   events : List (Nat × Nat)
 
 def parseCase : List String → Option Case
-  | [n, mc, mf, ex, unh, nt, evs] => do
+  | [n, mc, mf, ex, unh, nt, evs, retry] => do
     let ex ← parseExpiry ex
     let events ← if evs = "" then some [] else (evs.splitOn ",").mapM parseEvent
     pure { cfg := { nHosts := ← n.toNat?, maxConns := ← mc.toNat?, maxFails := ← mf.toNat?,
-                    countFails := ex != .off, unhealthy := Driver.bits unh },
+                    countFails := ex != .off, unhealthy := Driver.bits unh, retry := retry == "1" },
            ex := ex, nThreads := ← nt.toNat?, events := events }
   | _ => none
 
@@ -95,8 +96,16 @@ def parseSnap (s : String) : Option Snap :=
 def schedJudge (f : List String) (out : String) : String :=
   if out.startsWith "rule-applied-" then
     "bad:rule-reapplied:a request that lost its slot and selected again was forwarded with a header_upstream + rule applied more than once (C04)" else
-  match parseCase f, (out.splitOn ";").mapM parseSnap with
-  | some c, some snaps => verdict c.cfg c.ex snaps
+  let parts := out.splitOn ";"
+  let stuck := parts.getLast?.map (·.startsWith "stuck") == some true
+  let parts := if stuck then parts.dropLast else parts
+  match parseCase f, parts.mapM parseSnap with
+  | some c, some snaps =>
+    -- a run that got stuck has no final snapshot; judge what was observed up to there first
+    let v := verdict c.cfg c.ex snaps
+    if v != "ok" then v
+    else if stuck then "bad:stuck:a request neither reached its next Select nor ended (" ++ out.takeRight 30 ++ ")"
+    else "ok"
   | _, _ => "bad:unparsable:" ++ out
 
 def streams : List Driver.Stream := [
